@@ -67,6 +67,10 @@ def gen_history(rng, tier):
         for _ in range(rng.randrange(1, 4)):
             h['produce'].append([h['add_partition_at'] + rng.choice([0.1, 1.0, 2.0]), nparts, int(rng.random() < h['hole_rate'])])
         h['produce'].sort()
+    if rng.random() < 0.15:
+        # fetching some batches fails (transient KafkaException in get_message_batch): such a batch is never processed, so
+        # its end offset must never be committed; what is promised beyond that presupposes batches completing in order
+        h['fetch_failures'] = sorted(rng.sample(range(8), rng.choice([1, 1, 2])))
     h['pre_holes'] = [[int(rng.random() < h['hole_rate']) for _ in range(n)] for n in h['pre']]
     return h
 
@@ -234,9 +238,18 @@ def check_ranges(h, inc, broker, add, counters, group_start):
                 when = produced.get((p, o))
                 if when is not None and when > e[0]:
                     add('C09:range-beyond-high-watermark', 'partition %d: range (%d, %d) emitted before message %d existed' % (p, low, high, o))
-    fetch_out = [e for e in log.ev if e[2] == 'OUT' and e[3] == 'fetch']
-    fetch_in = [e for e in log.ev if e[2] == 'IN' and e[3] == 'fetch']
-    for i_e, o_e in zip(fetch_in, fetch_out):
+    pairs, pending = [], None
+    for e in log.ev:
+        if e[3] != 'fetch':
+            continue
+        if e[2] == 'IN':
+            pending = e
+        elif e[2] == 'RAISED':
+            pending = None              # the fetch failed: nothing handed on
+        elif e[2] == 'OUT' and pending is not None:
+            pairs.append((pending, e))
+            pending = None
+    for i_e, o_e in pairs:
         _, topic, p, keys, low, high = i_e[5]
         exp = [('p%d-o%d' % (p, o)).encode() for o in range(low, high + 1) if not is_hole(broker, p, o)]
         if len(exp) < high - low + 1:
@@ -273,11 +286,14 @@ def check_history(h, crash_at, counters, sets):
     group_start = {}
     completed = set()          # (partition, offset) completely processed, in global order across incarnations
     handed = set()             # end+1 of every range handed out, per partition
+    all_ranges = {}
     n_commits = n_batches = 0
     for k, crash in enumerate([crash_at, None] if crash_at is not None else [None]):
         size_at_start = [len(x) for x in broker.logs]
         committed_at_start = {p: broker.committed.get(('g', p), kafka_fake.OFFSET_INVALID) for p in range(len(broker.logs))}
         broker.committed_failures = h.get('committed_failures', 0)     # per incarnation: also on the restart
+        broker.fetch_failures = set(h.get('fetch_failures', ()))
+        broker.n_assign = 0
         inc = run_incarnation(broker, h, crash, preload=(k == 1))
         inc['size_at_start'] = size_at_start
         inc['committed_at_start'] = committed_at_start
@@ -285,10 +301,14 @@ def check_history(h, crash_at, counters, sets):
         if inc['reason'] == 'iter-cap':
             return None, None
         for name, msg, exc in inc['errors']:
+            if h.get('fetch_failures') and isinstance(exc, kafka_fake.KafkaException):
+                counters['injected_fetch_failures_seen'] = counters.get('injected_fetch_failures_seen', 0) + 1
+                continue
             add('C09:loop-exception:%s' % (type(exc).__name__ if exc is not None else 'log'), '%s %s %r' % (name, msg[:200], exc))
         per = check_ranges(h, inc, broker, add, counters, group_start)
         for p, rs in per.items():
             n_batches += len(rs)
+            all_ranges.setdefault(p, []).extend(rs)
             for low, high, e in rs:
                 handed.add((p, high + 1))
         for e in inc['log'].ev:
@@ -304,6 +324,9 @@ def check_history(h, crash_at, counters, sets):
                 if (p, o) not in handed:
                     add('C09:commit-of-offset-never-handed-out', 'partition %d: commit(%d) but no range ends at %d' % (p, o, o - 1))
                 start = group_start.get(p, 0)
+                if h.get('fetch_failures'):
+                    # only the literal rule: the batch ending just before o has been completely processed
+                    start = max([lo for (lo, hi, _) in all_ranges.get(p, []) if hi == o - 1] or [o - 1])
                 missing = [x for x in range(start, o) if (p, x) not in completed and not is_hole(broker, p, x)]
                 if missing:
                     add('C09:commit-before-processing-completed', 'incarnation %d, t=%s: commit(partition %d, offset %d) while '
@@ -311,7 +334,7 @@ def check_history(h, crash_at, counters, sets):
         if crash is not None and not inc['crashed']:
             break           # the history ended before the crash point: nothing to restart
     restarted = crash_at is not None and incs[0]['crashed'] and len(incs) == 2
-    if restarted:
+    if restarted and not h.get('fetch_failures'):
         counters['restart_runs'] = counters.get('restart_runs', 0) + 1
         if h['reset'] == 'earliest' or True:
             delivered2 = set()
